@@ -118,6 +118,14 @@ func h6Pick(tbl []h6Pat, i int) h6Pat {
 func (k *h6World) now() int64 { return int64(time.Since(k.born) / time.Millisecond) }
 
 func (k *h6World) add(s string) {
+	// a permission refresh may be sent as several CreatePermission requests (many peers): one refresh is one event
+	if len(k.peers) > 50 && s == "cp ok" {
+		for i := len(k.evs) - 1; i >= 0 && k.evs[i].t == k.now(); i-- {
+			if k.evs[i].s == s {
+				return
+			}
+		}
+	}
 	k.evs = append(k.evs, h6Ev{k.now(), s})
 }
 
@@ -533,6 +541,8 @@ func TestVerifH6(t *testing.T) {
 	// must be granted the configured value again (2 h and 3 h, across two refresh periods)
 	runH6History(t, vt, h6Cfg{life: 3 * 60 * min, peers: 1}, "life-3h", 5*60*min, false, 0)
 	runH6History(t, vt, h6Cfg{life: 2 * 60 * min}, "life-2h", 3*60*min+30*min, false, 0)
+	// directed: many peers (the permission refresh no longer fits one datagram of the server's inbound MTU)
+	runH6History(t, vt, h6Cfg{peers: 150}, "many-peers", 13*min, false, 0)
 	// directed: Close while the client's nonce is stale (no peers: nothing refreshes between 60 and 65 min)
 	runH6History(t, vt, h6Cfg{}, "close-stale-nonce", 0, false, 61*min+30000)
 	runH6History(t, vt, h6Cfg{}, "close-fresh-nonce", 0, false, 59*min)
